@@ -17,11 +17,19 @@
 (*   SerRet / Receive     r encoded at the effective version with the      *)
 (*                        implementation's definition, decoded with the    *)
 (*                        caller's                                         *)
+(* By-reference path: an argument passed as &T travels as a raw pointer    *)
+(* when the two NATIVE layouts are judged identical (ByRefOk); the         *)
+(* implementation then reads the caller's memory AS ITS OWN type           *)
+(* (Reinterpret).  Modelled for repr(C) structs of primitives, whose       *)
+(* layout is defined by the language; other types travel serialized in the *)
+(* model (what the real code decides for them is validated by AbiTrace).   *)
 (* The meaning oracles are EvoOps!Down and EvoOps!Load.                    *)
 (***************************************************************************)
 EXTENDS EvoOps, Schema, Json, SequencesExt
 
-CONSTANT Tier
+CONSTANTS Tier,
+          NameBlind   \* FALSE: the by-reference rule compares field identity (the code since fix 134a7b4);
+                      \* TRUE : the rule before that fix -- TLC then finds the F23 counterexample (AbiVer_nameblind.cfg)
 NV == 2      \* interface versions 0..NV
 
 (* ------------------------------------------------------------------ *)
@@ -84,6 +92,47 @@ ConnectOk(fam, i, j) ==
         LET m == MethodsAt(fam, i)[n] IN
         Find(MethodsAt(fam, j), m.name) = <<>> \/ Compatible(m, i, j, eff)
 
+(* ------------------------------------------------------------------ *)
+(* Memory of a repr(C) struct of primitives in the program at version v *)
+(* ------------------------------------------------------------------ *)
+FlatC(t) == t.k = "struct" /\ t.s = "C" /\ \A k \in 1..Len(t.ts) : t.ts[k].k = "p" /\ ~HasAs(t.fa[k])
+\* D-field indices that occupy memory at v: declared by v and not (yet) replaced by the zero-sized AbiRemoved marker
+MemIdx(t, v) == SelectSeq(Kept(t.fa, v), LAMBDA k : t.fa[k].to >= v)
+AlignUp(x, a) == ((x + a - 1) \div a) * a
+WidthOf(t, k) == PrimWidth(t.ts[k].s)
+RECURSIVE OffsetsC(_, _, _, _)
+OffsetsC(t, idx, n, at) ==        \* offsets of the first n memory fields, C layout rule
+    IF n = 0 THEN <<>>
+    ELSE LET prev == OffsetsC(t, idx, n - 1, at)
+             start == IF n = 1 THEN 0 ELSE prev[n - 1] + WidthOf(t, idx[n - 1]) IN
+         Append(prev, AlignUp(start, WidthOf(t, idx[n])))
+MaxW(t, idx) == IF idx = <<>> THEN 1 ELSE CHOOSE w \in {WidthOf(t, idx[n]) : n \in 1..Len(idx)} : \A n \in 1..Len(idx) : WidthOf(t, idx[n]) <= w
+\* native layout: [fields: <<[id, ty, off]>>, size, align]   (id = index of the field in D = its identity / name)
+NativeLayout(t, v) ==
+    LET idx == MemIdx(t, v)
+        offs == OffsetsC(t, idx, Len(idx), 0)
+        al == MaxW(t, idx)
+        end == IF idx = <<>> THEN 0 ELSE offs[Len(idx)] + WidthOf(t, idx[Len(idx)]) IN
+    [fields |-> [n \in 1..Len(idx) |-> [id |-> idx[n], ty |-> t.ts[idx[n]].s, off |-> offs[n]]],
+     size |-> AlignUp(end, al), align |-> al]
+\* the decision of arg_layout_compatible / Schema::layout_compatible on two such layouts
+LayoutRule(a, b) ==
+    /\ Len(a.fields) = Len(b.fields) /\ a.size = b.size /\ a.align = b.align
+    /\ \A n \in 1..Len(a.fields) : /\ a.fields[n].off = b.fields[n].off /\ a.fields[n].ty = b.fields[n].ty
+                                    /\ (NameBlind \/ a.fields[n].id = b.fields[n].id)
+ByRefOk(m, k, vi, vj) ==
+    /\ k \in m.refs /\ FlatC(m.args[k]) /\ ~(k = 1 /\ m.chg > 0)
+    /\ LayoutRule(NativeLayout(m.args[k], vi), NativeLayout(m.args[k], vj))
+\* what the implementation (program vj) sees when it reads the memory of a value of program vi as its own type:
+\* its n-th memory field is whatever lies at the n-th place of the caller's memory; zero-sized markers hold nothing
+Reinterpret(t, vi, vj, v) ==
+    LET ki == Kept(t.fa, vi)  kj == Kept(t.fa, vj)  mi == MemIdx(t, vi)  mj == MemIdx(t, vj)
+        PosIn(seq, x) == CHOOSE n \in 1..Len(seq) : seq[n] = x IN
+    L([q \in 1..Len(kj) |->
+         IF \E n \in 1..Len(mj) : mj[n] = kj[q]
+         THEN v.vs[PosIn(ki, mi[PosIn(mj, kj[q])])]
+         ELSE Unit])
+
 VARIABLES fam, i, j, pc, eff, connected, mname, args, seen, ret, got, outcome
 vars == <<fam, i, j, pc, eff, connected, mname, args, seen, ret, got, outcome>>
 
@@ -130,7 +179,9 @@ Missing ==
 Transfer ==
     /\ pc = "called" /\ Callee # <<>>
     /\ seen' = [k \in 1..Len(args) |->
-                  Dec(ArgAt(Callee[1], k, j), Enc(ArgAt(Caller, k, i), args[k], eff), 0, eff).v]
+                  IF ByRefOk(Caller, k, i, j)
+                  THEN Reinterpret(Caller.args[k], i, j, args[k])           \* raw pointer: the caller's memory read as the callee's type
+                  ELSE Dec(ArgAt(Callee[1], k, j), Enc(ArgAt(Caller, k, i), args[k], eff), 0, eff).v]
     /\ pc' = "invoking"
     /\ UNCHANGED <<fam, i, j, eff, connected, mname, args, ret, got, outcome>>
 \* the implementation returns one of its values (which must be expressible at the effective version)
@@ -168,6 +219,8 @@ IncompatibleRejected ==
         (connected = "err" <=> \E n \in 1..Len(Families[2]) :
                                    LET m == Families[2][n] IN m.chg > 0 /\ ((i >= m.chg) # (j >= m.chg)))
 MissingPanicsAtCall == outcome = "panic-missing-method" => connected = "ok" /\ Callee = <<>>
+\* the by-reference path is exercised: some connection passes a struct by pointer, some must serialize it
+ByRefTaken == ~(pc = "invoking" /\ \E k \in 1..Len(args) : ByRefOk(Caller, k, i, j) /\ i # j)      \* (expected to be VIOLATED: witness)
 
 Sig(m, v) == [name |-> m.name, args |-> ArgsAt(m, v), ret |-> RetAt(m, v), refs |-> SetToSeq(m.refs)]
 Export ==
